@@ -678,6 +678,28 @@ pub fn c10(sc: &Scenario, rr: &RunResult) -> Vec<Violation> {
             continue;
         }
         let Some(states) = reference.loop_states_by_path.get(&o.loop_path) else { continue };
+        // a reader inside a nested loop counts that loop's rounds: map them to the outer round
+        let mut o = o.clone();
+        if let Some(ip) = &o.inner_path {
+            if reference.unpredictable_loops.contains(ip) {
+                continue;
+            }
+            let Some(per_outer) = reference.inner_rounds.get(ip) else { continue };
+            let mut acc = 0u64;
+            let mut outer = None;
+            for (k, r) in per_outer.iter().enumerate() {
+                if o.true_round < acc + *r as u64 {
+                    outer = Some(k as u64);
+                    break;
+                }
+                acc += *r as u64;
+            }
+            match outer {
+                Some(k) => o.true_round = k,
+                None => continue, // more inner rounds than predicted: reported by the step outputs
+            }
+        }
+        let o = &o;
         let want = states.get(o.true_round as usize);
         match want {
             Some((r, acc)) => {
